@@ -247,7 +247,10 @@ struct ChunkedRange {
       // functions should be invoked instead.
       std::abort();
     }
-    return {chunk, (size() + chunk - 1) / chunk};
+    // Ceil-divide without forming size() + chunk, which wraps for chunk sizes close to the maximum of
+    // a 64-bit index type and would yield zero chunks (the loop body would never run).
+    const size_type chunkSz = static_cast<size_type>(chunk);
+    return {chunkSz, size() / chunkSz + (size() % chunkSz != 0)};
   }
 
   IntegerT start;
